@@ -57,9 +57,9 @@ Tuned(pat, slot, iv) ==   \* values of the inputs of pool `slot` (1 transparent,
     LET first == CHOOSE s \in {1, 3, 5, 7} : pat[s] > 0 /\ \A t \in {1, 3, 5, 7} : t < s => pat[t] = 0
     IN  [j \in 1..pat[slot] |-> IF slot = first /\ j = 1 THEN iv ELSE OtherIn]
 
-MkReq(pat, iv, act, thr, sp, memo, hr, ep, tp) ==
+MkReq(pat, iv, act, thr, sp, memo, hr, ep, tp, fb) ==
     [rule |-> Rule, hasMeta |-> sp.hasMeta, notes |-> sp.notes, target |-> sp.target, minSplit |-> sp.min,
-     act |-> act, hasThr |-> thr.has, thr |-> thr.v, fallback |-> "sapling", memo |-> memo,
+     act |-> act, hasThr |-> thr.has, thr |-> thr.v, fallback |-> fb, memo |-> memo,
      ephK |-> ep.k, ephV |-> ep.v,
      targetH |-> IF hr.nu63 THEN 250 ELSE 150, nu63H |-> 200, anchorH |-> IF hr.grid THEN 144 ELSE 145, interval |-> 144,
      ov3 |-> hr.ov3, sapType |-> "default",
@@ -72,7 +72,7 @@ MkReq(pat, iv, act, thr, sp, memo, hr, ep, tp) ==
 
 NoReq == MkReq(<< 1, 0, 0, 0, 0, 0, 0, 0 >>, 0, "reject", [has |-> FALSE, v |-> 0],
                [hasMeta |-> FALSE, target |-> 1, notes |-> -1, min |-> 0], FALSE,
-               [nu63 |-> FALSE, ov3 |-> FALSE, grid |-> TRUE], [k |-> "none", v |-> 0], "shield")
+               [nu63 |-> FALSE, ov3 |-> FALSE, grid |-> TRUE], [k |-> "none", v |-> 0], "shield", "sapling")
 
 (* ------------------------------------------------------------------------------------------ *)
 Out(k) == [k |-> k, change |-> << >>, fee |-> 0, hasDummy |-> FALSE, dummy |-> << 0, 0, 0 >>,
@@ -118,16 +118,17 @@ Init == /\ q = NoReq /\ done = 0 /\ ws = << >>
 Pick1 == /\ done = 0 /\ done' = 1 /\ ws' = ws
          /\ \E pat \in Patterns, act \in Acts, thr \in Thrs, sp \in Splits :
               q' = MkReq(pat, 0, act, thr, sp, FALSE, [nu63 |-> FALSE, ov3 |-> FALSE, grid |-> TRUE],
-                         [k |-> "none", v |-> 0], "shield")
+                         [k |-> "none", v |-> 0], "shield", "sapling")
 Pick2 == /\ done = 1 /\ done' = 2
-         /\ \E iv \in InVals, memo \in BOOLEAN, hr \in Regimes, ep \in Ephs, tp \in TPols :
+         /\ \E iv \in InVals, memo \in BOOLEAN, hr \in Regimes, ep \in Ephs, tp \in TPols, fb \in {"sapling", "orchard"} :
+              /\ (fb = "orchard" => N!NoShieldedIO(q))      \* the fallback pool only matters for transparent flows
               /\ Salt(q, iv, memo, hr, ep) % Slices = Slice
               /\ (tp = "allowed" => N!NoShieldedIO(q))       \* the policy only matters for transparent flows
               /\ LET pat == << Len(q.tinV), Len(q.toutV), Len(q.sin), Len(q.sout), Len(q.oin), Len(q.oout),
                                Len(q.iin), Len(q.iout) >>
                  IN  q' = MkReq(pat, iv, q.act, [has |-> q.hasThr, v |-> q.thr],
                                 [hasMeta |-> q.hasMeta, target |-> q.target, notes |-> q.notes, min |-> q.minSplit],
-                                memo, hr, ep, tp)
+                                memo, hr, ep, tp, fb)
          /\ ws' = [p \in N!CandPools(q') |-> WitnessOf(q', p)]
 Next == Pick1 \/ Pick2
 Spec == Init /\ [][Next]_vars
@@ -167,6 +168,25 @@ Sensitive ==
                 /\ ((\A p2 \in d.cand : ws[p2].k = "balance") =>
                         ~Ok(d, [Out("insufficient") EXCEPT !.available = d.in, !.required = d.in + 1]))
                 /\ ~Ok(d, Out("panic"))
+
+\* `select_change_pool` transcribed: stay in a pool the transaction already touches (Orchard, else
+\* Ironwood, else Sapling), else the fallback pool; after NU6.3 Orchard only if Orchard notes are
+\* spent and even the largest possible change is smaller than what they remove; transparent change
+\* when the policy allows it for fully transparent flows
+Pos(s) == N!NSum(s) > 0
+SelectPool(d) ==
+    LET preferred == IF Pos(q.oin) \/ Pos(q.oout) THEN "orchard"
+                     ELSE IF Pos(q.iin) \/ Pos(q.iout) THEN "ironwood"
+                     ELSE IF Pos(q.sin) \/ Pos(q.sout) THEN "sapling"
+                     ELSE q.fallback
+        maxChange == IF d.in >= d.out + d.fee0 THEN d.in - (d.out + d.fee0) ELSE 0
+    IN  IF d.mayT THEN "transparent"
+        ELSE IF d.nu63 /\ preferred = "orchard" /\ (~Pos(q.oin) \/ maxChange >= N!NSum(q.oin)) THEN "ironwood"
+        ELSE preferred
+\* the algorithm -- pool selection, then the witness computation -- meets every postcondition,
+\* the Orchard turnstile included
+AlgorithmMeetsPostconditions ==
+    Ready => LET d == N!Facts(q) IN Ok(d, ws[SelectPool(d)])
 
 \* what the property promises about any allowed balance, derived from the postconditions
 Promises ==
